@@ -761,7 +761,7 @@ func (w *hWorld) trial(fs *hFileSet) {
 		w.verdict(p, fmt.Sprintf("alt-size-limit %s served=%d limit=%d decompressed=%d", role, len(big), lim, d), w.anchor, ops, err, mustFail, !mustFail)
 
 	case 10: // exactly one reference is longer than the maximum CAS URI length (every reference has its own check)
-		refs := present[1:]
+		refs := present // including the core index reference inside the anchor string
 		if len(refs) == 0 {
 			return
 		}
@@ -775,6 +775,7 @@ func (w *hWorld) trial(fs *hFileSet) {
 		f2 := fs.clone()
 
 		switch role {
+		case "core":
 		case "coreProof":
 			f2.core["coreProofFileUri"] = longAddr
 		case "provIndex":
@@ -791,6 +792,8 @@ func (w *hWorld) trial(fs *hFileSet) {
 		anchor := ""
 
 		switch role {
+		case "core":
+			anchor = fmt.Sprintf("%d.%s", f2.count, longAddr)
 		case "coreProof", "provIndex":
 			anchor = fmt.Sprintf("%d.%s", f2.count, w.put(f2.core))
 		default:
@@ -851,6 +854,16 @@ func (w *hWorld) structural(orig *hFileSet) {
 		{"missing-provisional-proof-reference", w.nUpdate > 0, func() { delete(fs.provIndex, "provisionalProofFileUri") }},
 		{"superfluous-provisional-proof-reference", w.nUpdate == 0 && fs.provIndex != nil, func() { fs.provIndex["provisionalProofFileUri"] = w.uris["chunk"] }},
 		{"missing-chunk-reference", fs.provIndex != nil, func() { fs.provIndex["chunks"] = []interface{}{} }},
+		// exactly one chunk file belongs to a batch: further chunk references (a copy of the first, a file nobody has, an
+		// over-long URI) are superfluous
+		{"superfluous-chunk-reference", fs.provIndex != nil && len(list(fs.provIndex, "chunks")) == 1, func() {
+			extra := []interface{}{
+				deepCopyJSON(list(fs.provIndex, "chunks")[0]),
+				map[string]interface{}{"chunkFileUri": "QmNoSuchFileAnywhere"},
+				map[string]interface{}{"chunkFileUri": strings.Repeat("u", 900)},
+			}[T.Draw(3, "struct.chunk.extra")]
+			setList(fs.provIndex, append(list(fs.provIndex, "chunks"), extra), "chunks")
+		}},
 		// the core index lists creates / recovers (which need deltas from a chunk file) but names no provisional index at
 		// all; the anchor count is what a reader that silently skips them would return
 		{"missing-provisional-index-reference", fs.provIndex != nil && w.nCreate+w.nRecover > 0, func() {
